@@ -8,7 +8,7 @@ oq = bind_repo()
 
 
 def build_pt(d, e, sigma, kraus_per_step, dt=None, rank3_us=None, basis_v=None, caps="explicit",
-             name=None, description=None, cls=None):
+             name=None, description=None, cls=None, cap_op=None):
     """kraus_per_step[k]: Kraus list on system (x) ancilla of step k (physical basis).
     rank3_us[k]: list of d unitaries U_t (controlled unitary in the *internal* basis) -> rank-3 tensors.
     basis_v: unitary V on the system; the PT is stored in the internal basis (rho_int = V^dag rho V) with
@@ -28,6 +28,9 @@ def build_pt(d, e, sigma, kraus_per_step, dt=None, rank3_us=None, basis_v=None, 
              name=name, description=description)
     sig = np.asarray(sigma, dtype=complex).reshape(e * e)
     cap = R.cap_vec(e)
+    if cap_op is not None:
+        # user-defined read-out of the environment instead of the trace (caps are then NOT what compute_caps() gives)
+        cap = np.asarray(cap_op, dtype=complex).T.reshape(e * e)
     for k in range(n):
         if rank3_us is not None:
             m = R.mpo3_from_controlled(rank3_us[k], e)
